@@ -905,6 +905,10 @@ fn gen_reply(rng: &mut Rng, cfg: &Cfg, run: &Run, srv: &mut Server, now: u64) ->
             if !rng.chance(1, 10) { attrs.push(A::Realm(srv.realm)) }
             if !rng.chance(1, 10) { attrs.push(A::Nonce(srv.nonce, cookie)) }
             if let Some(l) = &srv.algs { attrs.push(A::PwdAlgs(l.clone())) }
+            // a duplicated PASSWORD-ALGORITHMS (the first one wins, and what follows it must still be read)
+            if srv.algs.is_some() && rng.chance(1, 6) { attrs.push(A::PwdAlgs(rng.pick(&[vec![Alg::Md5], vec![Alg::Sha256, Alg::Md5], vec![Alg::Other(7)], vec![]]).clone())) }
+            // the three challenge attributes in any order (each handler must be independent of the position of the others)
+            if rng.chance(1, 3) { let n0 = attrs.len() - attrs.iter().rev().take_while(|a| matches!(a, A::Realm(_) | A::Nonce(..) | A::PwdAlgs(_))).count(); let k = attrs.len() - n0; for i in (1..k).rev() { let j = rng.below((i + 1) as u64) as usize; attrs.swap(n0 + i, n0 + j); } }
             if rng.chance(1, 8) { attrs.push(A::Realm(srv.realm + 5)) } // duplicate realm: the first one wins
             if rng.chance(1, 6) { attrs.push(A::Nonce(srv.nonce + 50, *rng.pick(&[0u32, 1, 2, 3, 4, 5]))) } // duplicate nonce with other feature bits: the first one wins
         } else if code == 438 {
